@@ -31,6 +31,14 @@ CHECKS = {
         note="Line-granularity preemption; locks are replaced by cooperative ones discovered by type; cached/gRPC: backend calls are atomic steps; bound 2 (mem) / 1 quick, 3 / 2 thorough.",
         design="3/C03",
     ),
+    "C04": dict(
+        engine="thx",
+        category="model_checking",
+        technique="stateless model checking of concurrent study.ask()/enqueue workers (real threads under the cooperative scheduler, preemption-bounded) after every bounded sequential prefix history",
+        text="Every prefix history up to depth 2 (thorough 3) over {enqueue, ask, tell, add finished, add WAITING} leaving 1-2 queued trials is followed by 2-3 workers calling study.ask() + suggest (one may enqueue concurrently); all schedules up to the preemption bound with scheduling points at every source line of optuna/study/study.py and the storage-layer file, for workers sharing one Study (in-memory, journal, cached RDB, gRPC client) and for separate Study/JournalStorage objects over one shared journal. Checked: no trial id returned by two asks, enqueued value returned verbatim by suggest and stored, number/user attrs kept, no queued trial left WAITING or bypassed by a fresh trial when enough asks followed the last enqueue.",
+        note="Preemption bound 1 (quick) / 2 (thorough); SQLite statement-level double claim is not in this part; ask() raising is recorded as an observation only.",
+        design="3/C04",
+    ),
     "C05": dict(
         engine="procx",
         category="fault_enumeration",
@@ -110,7 +118,7 @@ ENGINES = [
          kind_free_text="processes as baton-scheduled threads over a simulated file system / virtual clock; every syscall a scheduling or crash point; state caching on (file image, per-process syscall-history digests)"),
     dict(name="seqx-lattice", path="vf/c15.py", serves_properties=["C11", "C15", "C18"],
          kind_free_text="bounded-exhaustive enumeration of finite argument lattices with exact or reference oracles"),
-    dict(name="thx", path="vf/thx.py", serves_properties=["C03"],
+    dict(name="thx", path="vf/thx.py", serves_properties=["C03", "C04"],
          kind_free_text="stateless exploration of thread interleavings of the real code under a controlled scheduler, preemption-bounded"),
     dict(name="seqx", path="vf/c01.py", serves_properties=["C01", "C02", "C06", "C12", "C17", "C20"],
          kind_free_text="bounded-exhaustive explicit-state search over operation sequences of the real code with reference-model / brute-force oracles"),
